@@ -127,6 +127,7 @@ type invResult struct {
 }
 
 type invCall struct {
+	ch       chan struct{} // free-running pass only (free.go): closed when the answer is there
 	answered bool
 	id       string // which answer (folded into the history of the goroutine that made the call)
 	res      invResult
@@ -151,7 +152,16 @@ type scriptedClient struct {
 
 func (c *scriptedClient) Inventory(ctx context.Context) ([]ctypes.Node, error) {
 	call := &invCall{}
+	if c.h.free != nil {
+		call.ch = make(chan struct{})
+	}
+	c.h.lock() // (no-op in controlled executions, see free.go)
 	c.h.calls = append(c.h.calls, call)
+	c.h.unlock()
+	if c.h.free != nil {
+		<-call.ch
+		return call.res.nodes, call.res.err
+	}
 	vs.Op("Inventory() waits for the cluster", nil, vs.FoldNone, func() bool { return call.answered }, nil)
 	vs.Note("inventory-answer", call.id)
 	return call.res.nodes, call.res.err
@@ -178,24 +188,37 @@ type state struct {
 	specMutNow  string
 
 	startErr string
+
+	// supplementary free-running pass (free.go); nil in controlled executions
+	free   *freeRun
+	donech chan struct{}
+}
+
+func newState(cfg *MCConfig, depth int) *state {
+	h := &state{cfg: cfg, depth: depth, specs: map[string]*dtypes.GroupSpec{}, specWant: map[string]string{}, specMutAt: -1}
+	for _, sl := range cfg.Slots {
+		if _, ok := h.specs[sl.Group.Name]; !ok {
+			h.specs[sl.Group.Name] = realGroup(sl.Group)
+			h.specWant[sl.Group.Name] = fmtGroup(realGroup(sl.Group))
+		}
+	}
+	return h
 }
 
 func mcFactory(cfg *MCConfig, depth int) vs.Factory {
 	return func() vs.Exec {
-		h := &state{cfg: cfg, depth: depth, specs: map[string]*dtypes.GroupSpec{}, specWant: map[string]string{}, specMutAt: -1}
-		for _, sl := range cfg.Slots {
-			if _, ok := h.specs[sl.Group.Name]; !ok {
-				h.specs[sl.Group.Name] = realGroup(sl.Group)
-				h.specWant[sl.Group.Name] = fmtGroup(realGroup(sl.Group))
-			}
-		}
+		h := newState(cfg, depth)
 		return vs.Exec{Body: h.body, Check: h.check}
 	}
 }
 
 func (h *state) clusterConfig() cluster.Config {
+	poll := 5 * vtime.Second
+	if h.free != nil {
+		poll = freePollPeriod // real clock: short, so that the poll timer does fire during a run
+	}
 	return cluster.Config{
-		InventoryResourcePollPeriod:     5 * vtime.Second,
+		InventoryResourcePollPeriod:     poll,
 		InventoryResourceDebugFrequency: 10,
 		InventoryExternalPortQuantity:   h.cfg.Ports,
 		CPUCommitLevel:                  h.cfg.Commit[0],
@@ -211,7 +234,8 @@ func (h *state) body() {
 		h.startErr = "subscribe: " + err.Error()
 		return
 	}
-	inv, err := cluster.VerifNewInventory(h.clusterConfig(), make(chan struct{}), sub, &scriptedClient{h: h})
+	h.donech = make(chan struct{})
+	inv, err := cluster.VerifNewInventory(h.clusterConfig(), h.donech, sub, &scriptedClient{h: h})
 	if err != nil {
 		h.startErr = "newInventoryService: " + err.Error()
 		return
@@ -220,6 +244,10 @@ func (h *state) body() {
 	// it). In the daemon the parent is read by cluster.service; here nobody reads it: its loop only buffers
 	// and forwards to the clone, exactly like a slow parent reader.
 	h.inv = inv
+	if h.free != nil {
+		h.free.startEnv(h)
+		return
+	}
 	vs.GoEnv(h.environment)
 }
 
@@ -355,23 +383,32 @@ func (h *state) fire(op Op, forced bool) {
 	switch op.Kind {
 	case opReserve:
 		slot := h.cfg.Slots[op.Arg]
-		vs.GoDaemon(func() { // may stay blocked: the service accepts requests only after a successful refresh
+		h.goDaemon(func() { // may stay blocked: the service accepts requests only after a successful refresh
 			vs.Label(op.String())
 			r, err := h.inv.Reserve(orderID(slot.Order), h.specs[slot.Group.Name])
+			atGrant := ""
 			if err == nil {
-				rec.granted, rec.resv, rec.atGrant = true, r, fmtGroup(r.Resources())
+				atGrant = fmtGroup(r.Resources())
+			}
+			h.lock()
+			if err == nil {
+				rec.granted, rec.resv, rec.atGrant = true, r, atGrant
 			}
 			rec.err = errName(err)
 			rec.done = true
+			h.unlock()
 		})
 	case opUnreserve:
-		vs.Go(func() {
+		h.goClient(func() {
 			vs.Label(op.String())
-			rec.err = errName(h.inv.Unreserve(orderID(op.Arg)))
+			e := errName(h.inv.Unreserve(orderID(op.Arg)))
+			h.lock()
+			rec.err = e
 			rec.done = true
+			h.unlock()
 		})
 	case opStatus:
-		vs.Go(func() {
+		h.goClient(func() {
 			vs.Label(op.String())
 			st, err := h.inv.Status(context.Background())
 			so := &statusObs{err: errName(err)}
@@ -379,8 +416,10 @@ func (h *state) fire(op Op, forced bool) {
 				so.err = "status.Error: " + st.Error.Error()
 			}
 			so.active, so.pending, so.available = fmtUnitsList(st.Active), fmtUnitsList(st.Pending), fmtUnitsList(st.Available)
+			h.lock()
 			rec.status = so
 			rec.done = true
+			h.unlock()
 		})
 	case opDeployed, opNotDeployed:
 		slot := h.cfg.Slots[op.Arg]
@@ -388,14 +427,17 @@ func (h *state) fire(op Op, forced bool) {
 		if op.Kind == opNotDeployed {
 			status = event.ClusterDeploymentPending
 		}
-		vs.Go(func() {
+		h.goClient(func() {
 			vs.Label(op.String())
-			rec.err = errName(h.bus.Publish(event.ClusterDeployment{
+			e := errName(h.bus.Publish(event.ClusterDeployment{
 				LeaseID: leaseID(slot.Order),
 				Group:   &manifest.Group{Name: slot.Group.Name},
 				Status:  status,
 			}))
+			h.lock()
+			rec.err = e
 			rec.done = true
+			h.unlock()
 		})
 	case opRefresh, opRefreshErr:
 		call := h.latestCall()
@@ -409,6 +451,9 @@ func (h *state) fire(op Op, forced bool) {
 		call.id = op.String()
 		call.answered = true
 		rec.done = true
+		if call.ch != nil {
+			close(call.ch) // free-running pass: the parked Inventory() call returns
+		}
 	}
 }
 
